@@ -805,6 +805,9 @@ func (e *Enc) loopWrites(li *loopInfo) (cells map[*ssa.Alloc]bool, heapAll bool,
 	}
 	var curArgs []ssa.Value
 	addSpecModifies := func(spec *FuncSpec) {
+		if !spec.Trusted {
+			heapKeys["alloc"] = SInt
+		}
 		for _, m := range spec.Modifies {
 			switch {
 			case strings.HasPrefix(m, "*"):
@@ -964,6 +967,9 @@ func (e *Enc) loopWrites(li *loopInfo) (cells map[*ssa.Alloc]bool, heapAll bool,
 						break
 					}
 					spec = e.W.Specs.Funcs[funcKey(f)]
+					if spec == nil {
+						spec = e.W.pureDefault(f)
+					}
 				} else if cc.IsInvoke() {
 					recvT := cc.Value.Type()
 					if n, ok := recvT.(*types.Named); ok {
@@ -1769,7 +1775,7 @@ func (e *Enc) frameCovered() (covered map[string]bool, all bool, active bool) {
 	if e.spec == nil || e.spec.Trusted || e.spec.NoBody {
 		return nil, false, false
 	}
-	covered = map[string]bool{}
+	covered = map[string]bool{"alloc": true} // allocating is never a frame violation
 	for _, m := range e.spec.Modifies {
 		switch {
 		case m == "all":
